@@ -1,6 +1,7 @@
 package sym
 
 import (
+	"sync"
 	"bufio"
 	"fmt"
 	"io"
@@ -47,6 +48,7 @@ type Solver struct {
 	Log     io.Writer // optional transcript
 	Timeout time.Duration
 	dead    bool
+	hmemo   map[*Term]uint64
 }
 
 const prelude = `
@@ -62,6 +64,41 @@ const prelude = `
 (declare-fun uf_add32 (F32 F32) F32)
 (declare-fun uf_sub32 (F32 F32) F32)
 `
+
+// QueryRecord, when non-nil, receives the verdict of every query under a
+// structural hash of what was asserted (independent of term numbering), so
+// that `symgo crosscheck` can compare solvers query by query even when
+// model-dependent choices make them explore in a different order.
+var QueryRecord map[uint64]Result
+var queryRecordMu sync.Mutex
+
+func (s *Solver) thash(t *Term) uint64 {
+	if s.hmemo == nil {
+		s.hmemo = map[*Term]uint64{}
+	}
+	if h, ok := s.hmemo[t]; ok {
+		return h
+	}
+	h := uint64(14695981039346656037)
+	mix := func(str string) {
+		for i := 0; i < len(str); i++ {
+			h ^= uint64(str[i])
+			h *= 1099511628211
+		}
+		h ^= 0xff
+		h *= 1099511628211
+	}
+	mix(t.Op)
+	mix(t.Var)
+	mix(t.Lit)
+	mix(fmt.Sprint(t.Sort))
+	for _, a := range t.Args {
+		h ^= s.thash(a)
+		h *= 1099511628211
+	}
+	s.hmemo[t] = h
+	return h
+}
 
 // Start launches a solver. kind is "z3", "z3-new" or "cvc5".
 func Start(kind string, precise bool, timeout time.Duration) (*Solver, error) {
@@ -273,6 +310,18 @@ func (s *Solver) Check(pc []*Term, extra *Term, wantModel []*Term) (Result, Mode
 	}
 	if extra != nil {
 		s.send("(pop 1)\n")
+	}
+	if QueryRecord != nil && err == nil {
+		h := uint64(1469598103934665603)
+		for _, l := range pc {
+			h += s.thash(l) * 1099511628211
+		}
+		if extra != nil {
+			h += s.thash(extra) * 40503
+		}
+		queryRecordMu.Lock()
+		QueryRecord[h] = res
+		queryRecordMu.Unlock()
 	}
 	switch {
 	case err != nil:
